@@ -1,6 +1,6 @@
 #!/usr/bin/env python3
 """Sensitivity sweep: apply each listed mutation (exact text replacement, nth occurrence)
-to /repo's working tree, run the property's check, restore.  Never leaves /repo modified.
+to the working tree of /repo (or of the scratch worktree named by VERIF_REPO), run the property's check, restore.  Never leaves /repo modified.
 usage: tools/mutants.py <listfile.py> [name-filter] ; list file defines ID, FILE, MUTANTS=[(name, old, new, nth)]"""
 import subprocess, sys, os, re
 spec = {}
@@ -12,7 +12,7 @@ for m in spec['MUTANTS']:
     nth = m[3] if len(m) > 3 else 0
     fpath = m[4] if len(m) > 4 else spec['FILE']
     if flt and flt not in name: continue
-    path = os.path.join('/repo', fpath)
+    path = os.path.join(os.environ.get('VERIF_REPO', '/repo'), fpath)
     src = open(path).read()
     pos = -1
     for _ in range(nth + 1):
@@ -30,4 +30,4 @@ for m in spec['MUTANTS']:
         if r.returncode == 2: print(out[-600:])
     finally:
         open(path, 'w').write(src)
-subprocess.run(['git', '-C', '/repo', 'status', '--short'])
+subprocess.run(['git', '-C', os.environ.get('VERIF_REPO', '/repo'), 'status', '--short'])
